@@ -151,6 +151,11 @@ pub fn c01_key(f: &Finding, p: &Program, _o: &Outcome) -> Option<String> {
             if f.got.contains("no such column: _expr_") && f.sql.contains("ORDER BY") && f.sql.contains(".*") {
                 return Some("orderby-helper-undefined-for-wildcard-column".into());
             }
+            // a group key that is a constant is written `GROUP BY 1`, which SQL reads as "the first column of the
+            // SELECT" — an aggregate once the constant itself is no longer selected
+            if f.got.contains("aggregate functions are not allowed in the GROUP BY") && f.sql.contains("GROUP BY 1") {
+                return Some("constant-group-key-emitted-as-position".into());
+            }
             if f.got.contains("do not have the same number of result columns") && has_append {
                 return Some("append-branches-projected-differently".into());
             }
